@@ -5,7 +5,7 @@
 From Coq Require Import List QArith ZArith Bool.
 From PyrexLib Require Import Interp.
 From PyrexModel Require Import AntennaModel AntennaSpec.
-From PyrexProofs Require Import C09_struct C09_sum C09_sys C09_sysm C09_fir C09_main.
+From PyrexProofs Require Import C09_struct C09_sum C09_sys C09_sysm C09_fir C09_epoch C09_main.
 Import ListNotations.
 Open Scope Q_scope.
 
@@ -217,3 +217,24 @@ Theorem lead_in_covers_memory : forall sc ts,
   (length (fe_taps sc) <= S (Z.to_nat (lead_in_n sc ts)))%nat.
 Proof. exact lead_in_covers_memory_lemma. Qed.
 Print Assumptions lead_in_covers_memory.
+
+(* ---------------------------------------------------------------- noise epochs
+   clear(reset_noise=True) drops the noise master UNCONDITIONALLY (idle antenna, antenna that only produced
+   noise, twice in a row ...: the state is the one reached by any history), clear(reset_noise=False) keeps it,
+   and every master held after a reset, after any further history, is a different draw from the one held
+   before: the realisation after an explicit reset is a fresh one. *)
+Theorem reset_gives_fresh_master : forall c h1 h2 r m1,
+  let st := final c a_init h1 in
+  noise_master st = Some m1 ->
+  noise_master (clear st true) = None /\
+  noise_master (clear st false) = Some m1 /\
+  (r = true ->
+   forall m2, noise_master (final c (clear st r) h2) = Some m2 -> (fst m1 < fst m2)%nat).
+Proof. exact reset_gives_fresh_master_lemma. Qed.
+Print Assumptions reset_gives_fresh_master.
+
+(* the master held is always one that was drawn (indices are handed out once) *)
+Theorem master_index_drawn : forall c h,
+  index_drawn (noise_master (final c a_init h)) (noise_draws (final c a_init h)).
+Proof. exact index_drawn_history. Qed.
+Print Assumptions master_index_drawn.
